@@ -114,8 +114,17 @@ def featureNamesOut (s : S) (w : Nat × Nat) (fitEp : Bool) (given : Option (Lis
     else if fitEp && !e then namesTf.drop 1
     else namesTf
 
-/-- `_validate_feature_names`: a later call is accepted iff the names extracted from its input (none for an array,
-the column names of a DataFrame) are the names captured at fit time — the same names in the same positions -/
-def namesAccepted (fitNames callNames : Option (List String)) : Bool := fitNames == callNames
+/-- what a later call hands over: a plain array (which carries no names), or a frame whose extracted names are
+`names` (`none` when not every column name is a string) -/
+inductive CallInput where
+  | array
+  | frame (names : Option (List String))
+  deriving Repr, DecidableEq
+
+/-- `_validate_feature_names`: a plain array has no names to compare and is accepted; a frame is accepted iff the names
+extracted from it are the names captured at fit time — the same names in the same positions -/
+def namesAccepted (fitNames : Option (List String)) : CallInput → Bool
+  | .array => true
+  | .frame callNames => fitNames == callNames
 
 end Pk
